@@ -80,5 +80,24 @@ ClosureByPositionOnly == \A c \in Cases : \A i \in DOMAIN c.p :
 ConstructorDirectlyInClass == \A c \in Cases : \A i \in DOMAIN c.p :
    KindOf(c.p, i, NameAt(c.p, i, c.inner, c.outer), DecoAt(c.p, i, c.deco)) = "Constructor" => (i > 1 /\ c.p[i - 1] = "C")
 
+\* ---- ordered lists: wherever the grammar has a list (stacked decorators, decorator arguments, base classes, elif
+\* clauses, with items, parameters), the node tree lists the items in the order of the text.  Every permutation of
+\* three distinguishable items per construct.
+Items == <<"k1", "k2", "k3">>
+Perms3 == {p \in [1..3 -> 1..3] : \A i, j \in 1..3 : i # j => p[i] # p[j]}
+Constructs == {"decorators-def", "decorators-class", "decorator-args", "bases", "elifs", "with-items", "params", "call-args", "dict-items"}
+ListText(c, p) ==
+  LET a == Items[p[1]]  b == Items[p[2]]  d == Items[p[3]] IN
+  CASE c = "decorators-def" -> "@" \o a \o "\n@" \o b \o "(1)\n@" \o d \o "\ndef f() -> int:\n\treturn 1\n"
+    [] c = "decorators-class" -> "@" \o a \o "\n@" \o b \o "(1)\n@" \o d \o "\nclass K:\n\tn: int\n"
+    [] c = "decorator-args" -> "@deco(" \o a \o ", " \o b \o ", " \o d \o ")\ndef f() -> int:\n\treturn 1\n"
+    [] c = "bases" -> "class K(" \o a \o ", " \o b \o ", " \o d \o "):\n\tn: int\n"
+    [] c = "elifs" -> "def f(k1: int, k2: int, k3: int) -> int:\n\tif k1 + k2 + k3 > 9:\n\t\treturn 0\n\telif " \o a \o " > 0:\n\t\treturn 1\n\telif " \o b \o " > 0:\n\t\treturn 2\n\telif " \o d \o " > 0:\n\t\treturn 3\n\treturn 4\n"
+    [] c = "with-items" -> "def f() -> int:\n\twith " \o a \o "() as w1, " \o b \o "() as w2, " \o d \o "() as w3:\n\t\treturn 1\n"
+    [] c = "params" -> "def f(" \o a \o ": int, " \o b \o ": int = 1, " \o d \o ": int = 2) -> int:\n\treturn 1\n"
+    [] c = "call-args" -> "def f(k1: int, k2: int, k3: int) -> int:\n\treturn g(" \o a \o ", " \o b \o ", " \o d \o ")\n"
+    [] c = "dict-items" -> "def f(k1: int, k2: int, k3: int) -> dict[str, int]:\n\treturn {'" \o a \o "': k1, '" \o b \o "': k2, '" \o d \o "': k3}\n"
+EmitLists == \A c \in Constructs : \A p \in Perms3 : PrintT("LIST " \o ToJson([construct |-> c, text |-> ListText(c, p), order |-> [i \in 1..3 |-> Items[p[i]]]]))
+
 Emit == \A c \in {x \in Cases : Relevant(x)} : PrintT("NEST " \o ToJson([path |-> c.p, text |-> Text(c.p, 1, c.inner, c.outer, c.deco), expect |-> Expect(c)]))
 =============================================================================
